@@ -166,6 +166,9 @@ def run_case(cls, key, seed, ctx):
         ctx.check(is_scalar_number(mp), "mean_prediction_not_scalar", got=repr(mp))
         ctx.check(np.size(mp) == 1 and close(np.asarray(mp, dtype=float).reshape(-1)[0], R.mean_prediction(yp, w), 1e-12, 1e-15),
                   "mean_prediction_value_mismatch", y_pred=yp, w=w, got=repr(mp), expected=R.mean_prediction(yp, w))
+    if isinstance(cw_col, np.ndarray):
+        ctx.check(bool(np.array_equal(np.asarray(cw_col, float).ravel(), np.asarray(w, float))), "metric_call_modifies_the_callers_weight_array",
+                  before=list(w)[:6], after=np.asarray(cw_col).ravel()[:6].tolist())
     c = M.count(cyt, cyp)
     ctx.ev("aux_metric_checks")
     ctx.check(is_scalar_number(c) and int(c) == n, "count_mismatch", got=repr(c), n=n)
